@@ -141,3 +141,61 @@ Fixpoint neval (env : list (str * str)) (st : nst) (s : str) : nres :=
   end.
 
 Definition ninja_eval (env : list (str * str)) (s : str) : nres := neval env NLit s.
+
+(* ------------------------------------------------------------------ build lines *)
+
+(* ninjabackend.py:380-414: the first line of a build statement.  deps / orderdeps arrive
+   sorted (the code sorts the sets); the whole line then has its backslashes turned into
+   slashes (:406).  POSIX branch. *)
+Definition bs_slash (s : str) : str := map (fun c => if c =? 92 then 47 else c) s.
+
+Definition quote_paths (ps : list str) : qres := qjoin (qmap (ninja_quote true) ps).
+
+Definition build_line (outs implicit : list str) (rulename : str) (ins deps orderdeps : list str) : qres :=
+  qbind (quote_paths ins) (fun ins' =>                                          (* :383 *)
+  qbind (quote_paths outs) (fun outs' =>                                        (* :384 *)
+  qbind (quote_paths implicit) (fun imp' =>                                     (* :385 *)
+  let imp'' := match imp' with [] => [] | _ => s2l " | " ++ imp' end in         (* :386-387 *)
+  qbind (match deps with [] => QOk [] | _ => qbind (quote_paths deps) (fun d => QOk (s2l " | " ++ d)) end) (fun d' =>      (* :395-396 *)
+  qbind (match orderdeps with [] => QOk [] | _ => qbind (quote_paths orderdeps) (fun d => QOk (s2l " || " ++ d)) end) (fun o' =>  (* :397-399 *)
+  QOk (bs_slash (s2l "build " ++ outs' ++ imp'' ++ s2l ": " ++ rulename ++ [32] ++ ins' ++ d' ++ o' ++ [10]))))))).   (* :394,400,406 *)
+
+(* reference semantics: ninja's lexer reading a path list (ReadEvalString in path mode,
+   one path after the other): an unescaped blank ends a path, an unescaped ':' '|' or
+   newline ends the list (and is left in the input).  $-references inside paths are
+   outside the fragment (meson never writes one). *)
+Inductive pst := PSkip | PIn (acc : str) | PDollar (acc : str).
+Inductive pres := POk (paths : list str) (rest : str) | PErr.
+
+Definition pcons (p : str) (r : pres) : pres :=
+  match r with POk ps rest => POk (p :: ps) rest | PErr => PErr end.
+
+Definition path_end (c : char) : bool := (c =? 58) || (c =? 124) || (c =? 10).
+
+Fixpoint npaths (st : pst) (s : str) : pres :=
+  match s with
+  | [] => match st with
+          | PSkip => POk [] []
+          | PIn acc => POk [rev acc] []
+          | PDollar _ => PErr
+          end
+  | c :: r =>
+      match st with
+      | PSkip =>
+          if c =? 32 then npaths PSkip r
+          else if path_end c then POk [] s
+          else if c =? 13 then PErr
+          else if c =? 36 then npaths (PDollar []) r
+          else npaths (PIn [c]) r
+      | PIn acc =>
+          if c =? 32 then pcons (rev acc) (npaths PSkip r)
+          else if path_end c then POk [rev acc] s
+          else if c =? 13 then PErr
+          else if c =? 36 then npaths (PDollar acc) r
+          else npaths (PIn (c :: acc)) r
+      | PDollar acc =>
+          if (c =? 36) || (c =? 32) || (c =? 58) then npaths (PIn (c :: acc)) r else PErr
+      end
+  end.
+
+Definition ninja_paths (s : str) : pres := npaths PSkip s.
